@@ -33,7 +33,7 @@ func isLockWrapperName(n string) bool {
 }
 
 func init() {
-	register(&Rule{ID: "C07.pair", Floor: 120,
+	register(&Rule{ID: "C07.pair", Floor: 120, Also: []string{"C06", "C17"},
 		Text: "every Lock/RLock is released on every path to every return (explicitly or by a deferred call), with the matching mode; no release of a lock that is not held; every deferred release is registered while the lock is held",
 		Run:  c07Pair})
 	register(&Rule{ID: "C07.order", Floor: 20,
